@@ -38,7 +38,10 @@ def rand_pstat(rng):
 
 def rand_ppacket(rng):
     p = {"type": rng.choice([0, 1, 2, 3, 4, 4, 5, -1, 2**31 - 1]), "id": rng.choice(UINT32S), "stat": None, "data": None}
-    if rng.random() < 0.5:
+    r0 = rng.random()
+    if r0 < 0.08:
+        p["stat"] = {}            # present but all fields at their defaults (encodes as a zero-length submessage)
+    elif r0 < 0.5:
         p["stat"] = rand_pstat(rng)
     r = rng.random()
     if r < 0.4:
@@ -85,7 +88,9 @@ class WireValues(Suite):
         n = {"quick": 6000, "thorough": 300000, "search": 2000}[tier]
         ops = []
         for _ in range(n):
-            if rng.random() < 0.5:
+            if rng.random() < 0.03:
+                ops.append({"op": "wire_enc", "kind": "stat", "v": {}})
+            elif rng.random() < 0.5:
                 ops.append({"op": "wire_enc", "kind": "stat", "v": rand_pstat(rng)})
             else:
                 ops.append({"op": "wire_enc", "kind": "pkt", "v": rand_ppacket(rng)})
